@@ -99,6 +99,7 @@ pub fn full_digest(sess: &Sess) -> Vec<String> {
     units.sort();
     for u in &units {
         let ctx = &mut c.ctx;
+        crate::sess::hook_idle();
         let r = trap(|| ctx.print_info_for_keyword(u).to_string());
         match r {
             Ok(s) => {
